@@ -76,6 +76,8 @@ def make(kind, config, shift=0.0):
         f.add_error(0.4)
         if config == "model-relative":
             f.add_error(0.05, relative=True, reference="model")
+    elif kind == "hist" and config == "overflow":
+        f = HistFit(HistContainer(5, (-1.0, 1.5), fill_data=RAW[VARIANT[0]:]), normal, cost_function="poisson")          # a good part of the entries lies outside the bin range
     elif kind == "hist" and config == "empty-bin":
         f = HistFit(HistContainer(8, (-3, 3.1), fill_data=RAW[VARIANT[0]:]), normal, cost_function="poisson")          # the first bin holds no entry: its Poisson uncertainty is 0, the others' is not
     elif kind == "hist":
@@ -183,6 +185,17 @@ def check_fit_axes(f, axes, option, tag, log_x=False, asym=False):
         edges = np.asarray(f.data_container.bin_edges, float)
         if d["xerr"] is None or near(d["xerr"][0], 0.5 * (edges[1:] - edges[:-1]), tag + ":bin-span"):
             return {"got": None if d["xerr"] is None else d["xerr"][0], "expected": 0.5 * (edges[1:] - edges[:-1]), "witness_class": tag + ":bin-span"}
+        # density curve: the model density scaled like the model bars - by ALL entries of the histogram (HistFit.model counts under/overflow too) and the mean bin width
+        lines = [l for l in main.lines if len(l.get_xdata()) >= 100]
+        if lines:
+            lx, ly = np.asarray(lines[0].get_xdata(), float), np.asarray(lines[0].get_ydata(), float)
+            hc = f.data_container
+            want = f.eval_model_function_density(x=lx) * (float(hc.high - hc.low) / hc.size) * (hc.n_entries if f.density else 1.0)
+            r = near(ly, want, tag + ":density-curve", 2e-3 if asym else 1e-9)
+            if r:
+                return r
+        else:
+            return {"got": len(main.lines), "expected": "a model density curve", "witness_class": tag + ":no-density-curve"}
     # model curve / band (xy): every drawn line with many points must be the model function at the current parameters
     if k == "xy":
         lines = [l for l in main.lines if len(l.get_xdata()) >= 100]
@@ -297,7 +310,7 @@ def gen(tier, seed):
 
 
 def gen_one(tier, seed):
-    for kind, configs in (("xy", ("y-errors", "xy-errors", "model-relative", "correlated", "everything")), ("indexed", ("y-errors", "model-relative", "poisson-like")), ("hist", ("poisson-like", "gauss-approx", "empty-bin")), ("unbinned", ("plain",))):
+    for kind, configs in (("xy", ("y-errors", "xy-errors", "model-relative", "correlated", "everything")), ("indexed", ("y-errors", "model-relative", "poisson-like")), ("hist", ("poisson-like", "gauss-approx", "empty-bin", "overflow")), ("unbinned", ("plain",))):
         for config in configs:
             for option in ("plain", "ratio", "residual", "pull"):
                 if (kind == "unbinned" and option != "plain") or (config == "empty-bin" and option not in ("plain", "residual")):
